@@ -33,7 +33,9 @@ PLAN["C09"] = {"kernels": [r"rpad", r"min_range", r"fillna", r"numnull", r"mask8
                            r"nones_as_index", r"BitMaskedArray_to", r"toIndexedOptionArray", r"ByteMaskedArray_mask", r"IndexedArray\w*_mask"],
                "kinds": ["S", "E", "F"], "trusted": KERNEL_TRUST}
 PLAN["C11"] = {"kernels": [r"validity", r"rpad_length_axis1", r"ListOffsetArray\w*_compact_offsets", r"getitem_nextcarry", r"ListArray\w*_getitem_carry"], "kinds": ["S", "E", "F"], "trusted": KERNEL_TRUST}
-PLAN["C12"] = {"kernels": ALL, "functions": ["awkward_regularize_rangeslice"], "kinds": ["S", "F"], "trusted": KERNEL_TRUST}
+QUICK_HELPERS = ["quick_sort", "quick_argsort"]     # helper templates of the hand-written quicksort: one unit per instantiation
+PLAN["C12"] = {"kernels": ALL, "functions": ["awkward_regularize_rangeslice"] + QUICK_HELPERS, "kinds": ["S", "F"], "trusted": KERNEL_TRUST}
+PLAN["C13"]["functions"] = list(QUICK_HELPERS)
 
 
 def _forth_engine(pid, tier, seed, known):
@@ -95,8 +97,11 @@ def _combinations_engine(pid, tier, seed, known):
 
 
 SORT_TRUST = ["std::sort / std::stable_sort / std::iota are external: given a strict weak order (proved here for every comparator instantiation) they return a sorted permutation, stable_sort a stable one",
-              "the sorting cores (awkward_sort, awkward_argsort, hand-written awkward_quick_sort / quick_argsort, the std::string based string sorts) are outside the translator and are only checked by the BOUNDED stand-ins listed under coverage.bounded; those are not proofs"]
-PLAN["C06"] = {"kernels": [r"sorting_ranges", r"rearrange_shifted", r"local_preparenext", r"awkward_unique", r"subrange_equal", r"unique_strings"],
+              "the hand-written quicksort (quick_sort / quick_argsort and the kernels around them) is under contract for memory safety, its stack discipline and the frame of each call (contracts/quicksort.py); that its output is sorted and a permutation is NOT proved: BOUNDED stand-in only; termination is not proved; binary_op's result is an unknown boolean in those units (the predicates themselves are proved total preorders with NaN first)",
+              "the sorting cores awkward_sort / awkward_argsort (std::sort on a std::vector of positions) and the std::string based string sorts are checked by the BOUNDED stand-ins listed under coverage.bounded; those are not proofs"]
+PLAN["C06"] = {"kernels": [r"sorting_ranges", r"rearrange_shifted", r"local_preparenext", r"awkward_unique", r"subrange_equal", r"unique_strings",
+                           r"awkward_quick_sort", r"awkward_quick_argsort"],
+               "functions": list(QUICK_HELPERS),
                "kinds": ["S", "E", "F"], "extra": [_sorting_engine], "trusted": KERNEL_TRUST + SORT_TRUST}
 PLAN["C07"] = {"kernels": [r"combinations"], "kinds": ["S", "E", "F"], "extra": [_combinations_engine],
                "trusted": KERNEL_TRUST + ["enumeration order of awkward_ListArray_combinations / awkward_RegularArray_combinations_64 (recursive helper over T**) is outside the translator: BOUNDED stand-in against itertools only; ak.cartesian is Python glue, not covered"]}
